@@ -244,6 +244,17 @@ class _Fn:
                     or ast.unparse(st.items[0].context_expr) not in self.locks:
                 self.fail(st, "with-statement over something that is not a declared lock")
             return self.block(list(st.body) + rest, vars_)
+        # `return a if c else b` / `x = a if c else b` are read as the if-statement they abbreviate, so that a branch
+        # which can raise is only evaluated when it is taken
+        if isinstance(st, ast.Return) and isinstance(st.value, ast.IfExp):
+            iff = ast.If(test=st.value.test, body=[ast.Return(value=st.value.body)], orelse=[ast.Return(value=st.value.orelse)])
+            ast.fix_missing_locations(ast.copy_location(iff, st))
+            return self.block([iff] + rest, vars_)
+        if isinstance(st, ast.Assign) and isinstance(st.value, ast.IfExp) and len(st.targets) == 1:
+            iff = ast.If(test=st.value.test, body=[ast.Assign(targets=st.targets, value=st.value.body)],
+                         orelse=[ast.Assign(targets=st.targets, value=st.value.orelse)])
+            ast.fix_missing_locations(ast.copy_location(iff, st))
+            return self.block([iff] + rest, vars_)
         if isinstance(st, ast.Return):
             if st.value is None:
                 self.fail(st, "return without value")
